@@ -996,7 +996,6 @@ class Connection(object):
 
         self.last_error = exc
         self.close()
-        self.error_all_cp_sessions(exc)
         self.error_all_requests(exc)
         self.connected_event.set()
         return exc
@@ -1007,6 +1006,9 @@ class Connection(object):
             self._continuous_paging_sessions[stream_id].on_error(exc)
 
     def error_all_requests(self, exc):
+        # also reached from close(): paging sessions must not be left waiting
+        self.error_all_cp_sessions(exc)
+
         with self.lock:
             requests = self._requests
             self._requests = {}
